@@ -394,3 +394,10 @@ let cmd_ignore (param : string) (arg : string) (impl : string) : string * string
       else "FAIL:C16:ignored-message-changed-later-dispatch" in
     (m, v)
   | _ -> ("UNPARSABLE", "-")
+
+(* C09 on the implementation alone: what one datapath sees of a history is what it sees of the same
+   history without the other datapaths' datagrams (the model's isolation is the theorem C09_frame) *)
+let cmd_isolate (_param : string) (_arg : string) (impl : string) : string * string =
+  ("ISOLATED", if impl = "" then "-" else if impl = "ISOLATED" then "ok"
+    else if impl = "PANIC" then "FAIL:C16:runtime-panicked"
+    else "FAIL:C09:another-datapaths-messages-changed-what-this-datapath-sees")
